@@ -13,9 +13,9 @@ class OptimizeConstantCastVisitor(Visitor.DefaultVisitor):
             if isinstance(ci.Type, LinearIR.FloatType):
                 constant = float(constant)
             else:
-                Errors.ERROR_INTERNAL_COMPILER_ERROR.Raise(
-                    f"Cannot cast constant {ci.Value} to type {ci.Type}"
-                )
+                # Only casts to float are folded; any other cast of a
+                # constant (int(2.5), uint(3)) is left for the VM to execute
+                return
             # Parent is basic block, and the parent of the basic block is
             # a function
             cv = ci.Parent.Parent.CreateConstant(ci.Type, constant)
